@@ -57,7 +57,17 @@ func (vc *FuncVC) execBlock(b *ssa.BasicBlock) {
 			// []byte(s) has strlen(s) bytes; string(b) for a byte slice b has len(b) bytes
 			if isString(ins.X.Type()) && v.Kind == vSlice && len(v.Elems) >= 2 {
 				if b, isB := ins.Type().Underlying().(*types.Slice).Elem().Underlying().(*types.Basic); isB && b.Kind() == types.Uint8 {
-					vc.assume(Eq(v.Elems[1].T, vc.strLen(vc.scalar(ins.X))))
+					// a new array holding the bytes of the string
+					src := vc.scalar(ins.X)
+					n := vc.strLen(src)
+					ptr := st.cnt
+					st.cnt = vc.define("cnt", Add(st.cnt, Add(n, IntLit(1))))
+					na := vc.havocRegion(st, cellKey(ins.Type().Underlying().(*types.Slice).Elem()), SInt, ptr, Add(ptr, n), TTrue, "strbytes")
+					vc.nfresh++
+					q := Term{fmt.Sprintf("sb_%d", vc.nfresh), SInt}
+					body := Implies(And(Le(ptr, q), Lt(q, Add(ptr, n))), Eq(Select(na, q, SInt), vc.strByte(src, Sub(q, ptr))))
+					vc.assume(Term{fmt.Sprintf("(forall ((%s Int)) (! %s :pattern (%s)))", q.S, body.S, Select(na, q, SInt).S), SBool})
+					v = &Val{Kind: vSlice, Elems: []*Val{{T: ptr}, {T: n}, {T: n}}, GoType: ins.Type()}
 				}
 			}
 			if isString(ins.Type()) {
@@ -65,6 +75,8 @@ func (vc *FuncVC) execBlock(b *ssa.BasicBlock) {
 					if sl, isS := ins.X.Type().Underlying().(*types.Slice); isS {
 						if b, isB := sl.Elem().Underlying().(*types.Basic); isB && b.Kind() == types.Uint8 {
 							vc.assume(Eq(vc.strLen(v.T), xv.Elems[1].T))
+							harr, base := vc.arr(st, cellKey(sl.Elem()), SInt), xv.Elems[0].T
+							vc.assume(vc.strSegFact(v.T, IntLit(0), xv.Elems[1].T, func(t Term) Term { return Select(harr, Add(base, t), SInt) }))
 						}
 					}
 				}
@@ -131,7 +143,9 @@ func (vc *FuncVC) execBlock(b *ssa.BasicBlock) {
 				// s[i]: a byte of the string, in range
 				idx := vc.scalar(ins.Index)
 				vc.oblige("S", fmt.Sprintf("bounds#%d", vc.ord("bounds")), reach, And(Le(IntLit(0), idx), Lt(idx, vc.strLen(vc.scalar(ins.X)))), vc.propTags("C04"), ins.Pos(), "index in range")
-				vc.vals[ins] = vc.freshVal("strbyte", ins.Type())
+				b := vc.define("strbyte", vc.strByte(vc.scalar(ins.X), idx))
+				vc.assume(And(Le(IntLit(0), b), Le(b, IntLit(255))))
+				vc.vals[ins] = &Val{T: b, GoType: ins.Type()}
 				break
 			}
 			vc.unsupported("%T at %s", ins, vc.pos(ins.Pos()))
@@ -375,6 +389,8 @@ func (vc *FuncVC) execSlice(st *State, reach Term, ins *ssa.Slice) {
 		bounds(hi, n)
 		r := vc.freshVal("strslice", ins.Type())
 		vc.assume(Implies(reach, Eq(vc.strLen(r.T), Sub(hi, lo))))
+		src, lo0 := vc.scalar(ins.X), lo
+		vc.assume(Implies(reach, vc.strSegFact(r.T, IntLit(0), Sub(hi, lo), func(t Term) Term { return vc.strByte(src, Add(lo0, t)) })))
 		vc.vals[ins] = r
 	}
 }
@@ -528,6 +544,9 @@ func (vc *FuncVC) execBinOp(st *State, reach Term, ins *ssa.BinOp) {
 		case token.ADD:
 			r := vc.freshVal("strcat", rt)
 			vc.assume(Eq(vc.strLen(r.T), Add(vc.strLen(x), vc.strLen(y))))
+			lx := vc.strLen(x)
+			vc.assume(vc.strSegFact(r.T, IntLit(0), lx, func(t Term) Term { return vc.strByte(x, t) }))
+			vc.assume(vc.strSegFact(r.T, lx, Add(lx, vc.strLen(y)), func(t Term) Term { return vc.strByte(y, Sub(t, lx)) }))
 			vc.vals[ins] = r
 		default:
 			vc.vals[ins] = vc.freshVal("strop", rt)
